@@ -1082,6 +1082,74 @@ fn operations(t: &mut Tape, ctx: &mut Ctx) -> R {
     Ok(())
 }
 
+// ---- unblinding of outputs whose range proof rewinds for the receiver but is not of the usual shape --------
+
+/// A sender who knows the receiver's blinding key can make any range proof rewind for the receiver: exact-value
+/// and few-bit proofs (whose embedded message is short or empty), messages of any length and content, other
+/// minimum values. `TxOut::unblind` must answer every one of them with Ok or Err.
+fn unblind_crafted(t: &mut Tape, ctx: &mut Ctx) -> R {
+    use elements::secp256k1_zkp::{Generator, PedersenCommitment, RangeProof};
+    let p = pool();
+    let s = secp();
+    ctx.eval();
+    let recv = t.below(p.seckeys.len());
+    let eph = t.below(p.seckeys.len());
+    let nonce = Nonce::Confidential(p.pubkeys[eph]);
+    // the secret both sides derive (ECDH is symmetric): ask the library from the sender's side
+    let Some(shared) = guard::guard("Nonce::shared_secret", 0, || Nonce::Confidential(p.pubkeys[recv]).shared_secret(&p.seckeys[eph]))? else {
+        return Ok(());
+    };
+    let asset = p.assets[t.below(p.assets.len())];
+    let abf = p.tweaks[t.below(p.tweaks.len())];
+    let vbf = p.tweaks[t.below(p.tweaks.len())];
+    let g = Generator::new_blinded(s, asset.into_tag(), abf);
+    let value = match t.below(4) {
+        0 => 1,
+        1 => 1 + u64::from(t.u8()),
+        2 => 1u64 << t.below(52),
+        _ => 1 + t.edgy_u64() % ((1u64 << 51) - 1),
+    };
+    let comm = PedersenCommitment::new(s, value, vbf, g);
+    let spk = if t.bool() { gen::gen_script(t, false) } else { Script::new() };
+    // what the proof embeds: the regular 64 bytes (asset || abf), a wrong 64 bytes, or 0..=100 arbitrary bytes
+    let mut msg: Vec<u8> = Vec::new();
+    let mkind = t.below(6);
+    match mkind {
+        0 => {
+            msg.extend_from_slice(asset.into_tag().as_ref());
+            msg.extend_from_slice(abf.as_ref());
+        }
+        1 => msg = t.bytes(64),
+        2 => {}
+        _ => {
+            let n = t.choose(&[1usize, 31, 32, 33, 63, 65, 96, 100]);
+            msg = t.bytes(n);
+        }
+    }
+    let (min_value, exp, min_bits, shape): (u64, i32, u8, &str) = match t.below(5) {
+        0 => (1, 0, 52, "regular"),
+        1 => (value, -1, 0, "exact-value"),
+        2 => (value, 0, 1 + t.below(3) as u8, "few-bits"),
+        3 => (0, 0, 36, "min-0-36-bits"),
+        _ => (1, t.below(4) as i32, 32 + t.below(30) as u8, "other"),
+    };
+    let rp = guard::guard("RangeProof::new (harness side)", 0, || RangeProof::new(s, min_value, comm, value, vbf, &msg, spk.as_bytes(), shared, exp, min_bits, g));
+    let Ok(Ok(rp)) = rp else {
+        ctx.class("unblind-crafted:proof-not-constructible");
+        return Ok(());
+    };
+    let mut out = TxOut { asset: Asset::Confidential(g), value: Value::Confidential(comm), nonce, script_pubkey: spk, witness: Default::default() };
+    out.witness.rangeproof = Some(Box::new(rp));
+    let sk = p.seckeys[recv];
+    let r = guard::guard("TxOut::unblind", msg.len(), || out.unblind(s, sk).map(|x| (x.value, x.asset)))?;
+    ctx.class(&format!("unblind-crafted:{}:message-{}-bytes:{}", shape, msg.len(), if r.is_ok() { "ok" } else { "err" }));
+    ctx.nontrivial(&(shape, msg.len(), value, mkind));
+    if ctx.wants_sample("unblind-crafted") {
+        ctx.sample("unblind-crafted", || json!({"proof": shape, "message_bytes": msg.len(), "value": value, "result": format!("{:?}", r.as_ref().map_err(|e| e.to_string()))}));
+    }
+    Ok(())
+}
+
 /// raw bytes (fuzz entry and replay format): first byte selects the decoder
 fn raw_bytes(t: &mut Tape, ctx: &mut Ctx) -> R {
     let ty = usize::from(t.u8()) % N_DECODERS;
@@ -1955,6 +2023,7 @@ pub fn property() -> Property {
             Sub { name: "text_parsers", kind: Kind::Tape { max_len: 3000, quick: 240_000, thorough: 3_000_000, f: text_parsers } },
             Sub { name: "slice_parsers", kind: Kind::Tape { max_len: 1500, quick: 240_000, thorough: 3_000_000, f: slice_parsers } },
             Sub { name: "operations", kind: Kind::Tape { max_len: 5000, quick: 6_000, thorough: 200_000, f: operations } },
+            Sub { name: "unblind_crafted", kind: Kind::Tape { max_len: 400, quick: 4_000, thorough: 120_000, f: unblind_crafted } },
             Sub { name: "raw_bytes", kind: Kind::Tape { max_len: 300, quick: 120_000, thorough: 1_500_000, f: raw_bytes } },
             Sub { name: "raw_text", kind: Kind::Tape { max_len: 120, quick: 120_000, thorough: 1_500_000, f: raw_text } },
             Sub { name: "pset_framed", kind: Kind::Tape { max_len: 3000, quick: 50_000, thorough: 1_500_000, f: pset_framed } },
